@@ -14,7 +14,7 @@ git apply $SRC/patch.diff
 sout=$(cargo test --offline --no-fail-fast 2>>$LOG)
 suite=$(echo "$sout" | grep -E "^test result" | tr '\n' ' ')
 # failing tests by name; the baseline excludes the flaky ops::delay::tests::shared_smoke (see /root/.vp/BASELINE.json)
-fails=$(echo "$sout" | grep -E "^test .* FAILED" | grep -v "delay::tests::shared_smoke" | wc -l)
+fails=$(echo "$sout" | grep -E "^test [A-Za-z0-9_:]+ \.\.\. FAILED" | grep -v "delay::tests::shared_smoke" | wc -l)
 echo "$sout" | grep -E "^test .* FAILED" >> $LOG
 mkdir -p tests && cp $SRC/demo.rs tests/demo.rs
 with=$(cargo test --offline --test demo 2>>$LOG | grep -E "^test result" | tr '\n' ' ')
